@@ -181,3 +181,12 @@ Fixpoint unroll (l : line) (rs : list var) (body : block) (k : nat) : stmt :=
 Definition once (l : line) (rs : list var) (body1 : block) : stmt :=
   If l rs (bapp body1 (bsingle (Expr l rs))) BNil.
 
+
+(* ------------------------------------------------------------------ for loops (proof/C09_For.v)
+   visit_For analyses   for x in f(rs): B   as the straight-line block   x = f(rs); B   (the body is visited once, in the same
+   path).  A real execution evaluates the iterable once and runs  x = <next item>; B  k times, k >= 0. *)
+Definition for_analysed (l : line) (x : var) (rs : list var) (body : block) : block := BCons (Assign l x rs) body.
+Fixpoint iterations (l : line) (x : var) (body : block) (k : nat) : block :=
+  match k with 0 => BNil | S k' => bapp (BCons (Assign l x []) body) (iterations l x body k') end.
+Definition for_run (l : line) (x : var) (rs : list var) (body : block) (k : nat) : block :=
+  BCons (Expr l rs) (iterations l x body k).
